@@ -99,3 +99,29 @@ class DefaultTagDatatypeTable(Contract):
                 got = "raises %s" % type(e).__name__
             out.append(_obl("DefaultTagDatatypeTable", "default-of-%s-is-%s" % (name, dt), got == dt, {"value": repr(v), "got": got, "documented": dt}))
         return out
+
+
+@register
+class DependentLinesTables(Contract):
+    fn = "gfapy/line/common/disconnection.py::Disconnection._disconnect_dependent_lines"
+    props = ("C05", "C02")
+    fragment = "T"
+    doc = ("the tables the removal cascade walks (DEPENDENT_LINES of each line class; contract DisconnectDependentLines: every line of every listed collection, "
+           "once): a segment lists all its edge collections, its gaps, fragments, paths and sets; a link its paths; a GFA2 edge, an ordered group, an "
+           "unordered group and a placeholder of unknown type both their paths and their sets (a group of either kind may be listed by a group of either kind); "
+           "a gap lists no dependants (its mentions are dropped, contract RemoveNonfieldBackreferences) - and every key is a collection the class really has")
+
+    def custom(self, ctx, tier):
+        g = ctx.gfapy
+        want = {g.line.segment.GFA1: {"dovetails_L", "dovetails_R", "edges_to_contained", "edges_to_containers", "paths"},
+                g.line.segment.GFA2: {"dovetails_L", "dovetails_R", "edges_to_contained", "edges_to_containers", "internals", "gaps_L", "gaps_R", "fragments", "paths", "sets"},
+                g.line.edge.Link: {"paths"}, g.line.edge.Containment: set(), g.line.edge.GFA2: {"paths", "sets"},
+                g.line.group.Ordered: {"paths", "sets"}, g.line.group.Unordered: {"paths", "sets"}, g.line.Unknown: {"paths", "sets"},
+                g.line.Gap: set(), g.line.group.Path: set(), g.line.Fragment: set()}
+        out = []
+        for c, w in sorted(want.items(), key=lambda kv: kv[0].__module__ + kv[0].__name__):
+            have = set(c.DEPENDENT_LINES)
+            nm = "%s.%s" % (c.__module__.split(".")[-1], c.__name__)
+            out.append(_obl("DependentLinesTables", "%s-lists-every-collection-of-dependants" % nm, w <= have, {"missing": sorted(w - have)}))
+            out.append(_obl("DependentLinesTables", "%s-lists-nothing-else" % nm, have <= w, {"extra": sorted(have - w)}))
+        return out
